@@ -2,6 +2,7 @@ package main
 
 // component "essink" (C14): the real elasticsearch node over a scripted bulk service.
 // input: "cfg <batchSize> <maxRetries> <workers> <waitMs> <mode> ; d <id> <script> | w | p <ms> ; ..."
+//   "d <id> <script> e": the request names no index (empty Index)
 //   script: verdict per attempt of that document, o = 2xx, r = retryable error, m = mapping conflict (last one repeats)
 //   mode:   normal | linger (normal, observed for 5.5 s after the last answer) | shutdown (Shutdown right after the last submission) | whole:<k> (bulk call k fails as a whole)
 //           | late:<k> (bulk call k answers after the per-request deadline)
@@ -38,6 +39,8 @@ func genEsSink(r *rng, n int, tier string, emit func(string)) {
 		"cfg 2 1 1 20 linger ; d 1 rr ; d 2 o ; d 3 rm",
 		// a refused bulk request (5 s back-off) must not use up the per-document retry budget
 		"cfg 2 1 1 20 whole:0 ; d 1 o ; d 2 ro ; d 3 m",
+		"cfg 5 1 1 20 normal ; d 1 o ; d 2 m ; d 3 m ; d 4 rr ; d 5 rr",        // several permanent failures of one kind in one response
+		"cfg 4 1 1 20 normal ; d 1 o ; d 2 o e ; d 3 m ; d 4 o ; d 5 o e ; d 6 o", // requests without an index name inside batches
 	} {
 		emit(c)
 	}
@@ -72,6 +75,9 @@ func genEsSink(r *rng, n int, tier string, emit func(string)) {
 					break
 				}
 			}
+			if r.chance(6) {
+				sb.WriteString(" e") // a request that names no index: elasticsearch decides what becomes of it
+			}
 			ops = append(ops, fmt.Sprintf("d %d %s", j+1, sb.String()))
 			if r.chance(8) && mode == "normal" {
 				ops = append(ops, "w")
@@ -97,6 +103,7 @@ type esScript struct {
 	altered   int
 	wholeCall int
 	lateCall  int
+	emptyIdx  map[string]bool // documents submitted with an empty index name
 }
 
 type scriptedBulk struct {
@@ -130,7 +137,11 @@ func (b *scriptedBulk) Do(ctx context.Context) (*elastic.BulkResponse, error) {
 			n, _ := strconv.Atoi(id)
 			var doc map[string]int
 			_ = json.Unmarshal([]byte(lines[1]), &doc)
-			if idx != fmt.Sprintf("idx%d", n%3) || doc["n"] != n || len(doc) != 1 {
+			want := fmt.Sprintf("idx%d", n%3)
+			if s.emptyIdx[id] {
+				want = ""
+			}
+			if idx != want || doc["n"] != n || len(doc) != 1 {
 				s.altered++
 			}
 		} else {
@@ -175,11 +186,11 @@ func (b *scriptedBulk) Do(ctx context.Context) (*elastic.BulkResponse, error) {
 		switch c {
 		case 'r':
 			item.Status = 429
-			item.Error = &elastic.ErrorDetails{Type: "es_rejected_execution_exception", Reason: "busy"}
+			item.Error = &elastic.ErrorDetails{Type: "es_rejected_execution_exception", Reason: "busy " + id, Index: "idx-of-" + id}
 			res.Errors = true
 		case 'm':
 			item.Status = 400
-			item.Error = &elastic.ErrorDetails{Type: "mapper_parsing_exception", Reason: "conflict"}
+			item.Error = &elastic.ErrorDetails{Type: "mapper_parsing_exception", Reason: "conflict on field f" + id, Index: "idx-of-" + id}
 			res.Errors = true
 		}
 		res.Items = append(res.Items, map[string]*elastic.BulkResponseItem{"index": item})
@@ -199,7 +210,7 @@ func execEsSink(input string) string {
 	workers, _ := strconv.Atoi(hd[3])
 	waitMs, _ := strconv.Atoi(hd[4])
 	mode := hd[5]
-	svc := &esScript{scripts: map[string]string{}, scriptIdx: map[string]int{}, sendCount: map[string]int{}, firstSeen: map[string]time.Time{}, wholeCall: -1, lateCall: -1}
+	svc := &esScript{scripts: map[string]string{}, scriptIdx: map[string]int{}, sendCount: map[string]int{}, firstSeen: map[string]time.Time{}, wholeCall: -1, lateCall: -1, emptyIdx: map[string]bool{}}
 	timeoutSec := "20"
 	if strings.HasPrefix(mode, "whole:") {
 		svc.wholeCall, _ = strconv.Atoi(strings.TrimPrefix(mode, "whole:"))
@@ -227,7 +238,12 @@ func execEsSink(input string) string {
 			func(err error) {
 				var fe firebolt.FBError
 				if errors.As(err, &fe) && fe.Code == "ES_INDEX_ERROR" && fe.ErrorInfo != nil {
-					record(key, "E")
+					// the error carried must be the one elasticsearch returned for this very document
+					if det, ok := fe.ErrorInfo.(*elastic.ErrorDetails); ok && det != nil && det.Index != "idx-of-"+strings.TrimPrefix(key, "d") {
+						record(key, "Ew")
+					} else {
+						record(key, "E")
+					}
 				} else if strings.Contains(err.Error(), "type assertion") {
 					record(key, "T")
 				} else {
@@ -253,9 +269,14 @@ func execEsSink(input string) string {
 			n, _ := strconv.Atoi(id)
 			svc.mu.Lock()
 			svc.scripts[id] = f[2]
+			index := fmt.Sprintf("idx%d", n%3)
+			if len(f) > 3 && f[3] == "e" {
+				svc.emptyIdx[id] = true
+				index = ""
+			}
 			svc.mu.Unlock()
 			order = append(order, "d"+id)
-			submit("d"+id, elasticsearch.IndexRequest{Index: fmt.Sprintf("idx%d", n%3), DocID: id, Doc: map[string]int{"n": n}})
+			submit("d"+id, elasticsearch.IndexRequest{Index: index, DocID: id, Doc: map[string]int{"n": n}})
 			lastSubmit = time.Now()
 			lastKey = id
 		case "w":
